@@ -146,12 +146,14 @@ func goArrayDelete(obj *object, name string, throw bool) bool {
 	index := stringToArrayIndex(name)
 	if index >= 0 {
 		goObj := obj.value.(*goArrayObject)
+		indexValue, exists := goObj.getValueIndex(index)
+		if !exists {
+			// no such property (8.12.7 step 2)
+			return true
+		}
 		if goObj.writable {
-			indexValue, exists := goObj.getValueIndex(index)
-			if exists {
-				indexValue.Set(reflect.Zero(reflect.Indirect(goObj.value).Type().Elem()))
-				return true
-			}
+			indexValue.Set(reflect.Zero(reflect.Indirect(goObj.value).Type().Elem()))
+			return true
 		}
 		return obj.runtime.typeErrorResult(throw)
 	}
